@@ -86,6 +86,22 @@ def discharge(vc, timeout_ms=10000, use_cvc5=True, keep_model=True):
         return Verdict(vc.name, "proved", "z3", time.time() - t0, meta=vc.meta, smt_size=len(s.sexpr()))
     if r == z3.sat:
         m = s.model()
+        # prefer a small counter-model (replays rebuild real objects from it)
+        ints = [p for p in _free_numeric_params(vc) if z3.is_int(p)]
+        if ints:
+            s.set("timeout", 1500)
+            for bound in (6, 30):
+                s.push()
+                for p in ints:
+                    s.add(p <= bound, p >= -bound)
+                try:
+                    if s.check() == z3.sat:
+                        m = s.model()
+                        s.pop()
+                        break
+                except z3.Z3Exception:
+                    pass
+                s.pop()
         return Verdict(vc.name, "refuted", "z3", time.time() - t0, model=m if keep_model else None, meta=vc.meta,
                        smt_size=len(s.sexpr()))
     reason = s.reason_unknown()
